@@ -1,12 +1,12 @@
 (** The single entry point of the extracted model: one request line in,
     one reply line out. *)
 From Coq Require Import List String.
-From Naunet Require Import Lib.Sexp Wire.W15 Wire.WOde Wire.WRates Wire.WNet Wire.WSpecies Wire.WIndex Wire.WDecode Wire.WRate Wire.WGrain Wire.WNative Wire.WRenorm Wire.WSolve Wire.WKrome Wire.WConfig Wire.WGlobals Wire.WSymbols.
+From Naunet Require Import Lib.Sexp Wire.W15 Wire.WOde Wire.WRates Wire.WNet Wire.WSpecies Wire.WIndex Wire.WDecode Wire.WRate Wire.WGrain Wire.WNative Wire.WRenorm Wire.WSolve Wire.WKrome Wire.WConfig Wire.WGlobals Wire.WSymbols Wire.WPhysics.
 Import ListNotations.
 Open Scope string_scope.
 
 Definition handlers : list (string -> list sexp -> option sexp) :=
-  [ handle15; handle_ode; handle_rates; handle_net; handle_species; handle_index; handle_decode; handle_rate; handle_grain; handle_native; handle_renorm; handle_solve; handle_krome; handle_config; handle_globals; handle_symbols ].
+  [ handle15; handle_ode; handle_rates; handle_net; handle_species; handle_index; handle_decode; handle_rate; handle_grain; handle_native; handle_renorm; handle_solve; handle_krome; handle_config; handle_globals; handle_symbols; handle_physics ].
 
 Fixpoint try_handlers (hs : list (string -> list sexp -> option sexp))
          (cmd : string) (args : list sexp) : sexp :=
